@@ -14,8 +14,8 @@ type listInst struct {
 	s     stackage.Stack
 	m     *listModel
 	by    *listInst // a second, unrelated instance of the same configuration that is put through the same calls in turn
-	tok   int    // fresh-token counter
-	shape string // listCfg.Tok
+	tok   int       // fresh-token counter
+	shape string    // listCfg.Tok
 }
 
 type tokStruct struct{ Names []string }
@@ -355,7 +355,7 @@ func c01Machine(c *Ctx, cfg listCfg) *Machine[*listInst] {
 		}
 	}
 	return &Machine[*listInst]{
-		Name:     "C01 " + cfg.String(),
+		Name: "C01 " + cfg.String(),
 		New: func() *listInst {
 			in := cfg.build()
 			if cfg.Prefill == 0 {
